@@ -36,12 +36,12 @@ PROPS["C15"] = {
                                "property text)"],
 }
 
-PROPS["C01"] = {"rules": ["R09", "R10", "R11"], "explanation": "wip", "assumptions": [], "trusted": COMMON_TRUST}
-PROPS["C05"] = {"rules": ["R10", "R11"], "explanation": "wip", "assumptions": [], "trusted": COMMON_TRUST}
-PROPS["C03"] = {"rules": ["R11"], "explanation": "wip", "assumptions": [], "trusted": COMMON_TRUST}
-PROPS["C06"] = {"rules": ["R09", "R10", "R11"], "explanation": "wip", "assumptions": [], "trusted": COMMON_TRUST}
+PROPS["C01"] = {"rules": ["R09", "R10", "R11", "R08", "R13c"], "explanation": "wip", "assumptions": [], "trusted": COMMON_TRUST}
+PROPS["C05"] = {"rules": ["R10", "R11", "R08", "R13c", "R13ab"], "explanation": "wip", "assumptions": [], "trusted": COMMON_TRUST}
+PROPS["C03"] = {"rules": ["R11", "R13ab"], "explanation": "wip", "assumptions": [], "trusted": COMMON_TRUST}
+PROPS["C06"] = {"rules": ["R09", "R10", "R11", "R08", "R13c"], "explanation": "wip", "assumptions": [], "trusted": COMMON_TRUST}
 PROPS["C09"] = {"rules": ["R10", "R11"], "explanation": "wip", "assumptions": [], "trusted": COMMON_TRUST}
-PROPS["C20"] = {"rules": ["R09", "R10"], "explanation": "wip", "assumptions": [], "trusted": COMMON_TRUST}
+PROPS["C20"] = {"rules": ["R09", "R10", "R08"], "explanation": "wip", "assumptions": [], "trusted": COMMON_TRUST}
 
 PROPS["C02"] = {"rules": ["R16"], "explanation": "wip", "assumptions": [], "trusted": COMMON_TRUST}
 PROPS["C11"] = {"rules": ["R16", "R17"], "explanation": "wip", "assumptions": [], "trusted": COMMON_TRUST}
